@@ -29,21 +29,23 @@ LEAN_PROPS = "PpciVerif/Props/C21.lean"
 LEAN_TARGETS = ["PpciVerif.Props.C21", "Drivers.C21"]
 LEVEL = "proof"
 LEVEL_TEXT = (
-    "PARTIAL (binary layer proved, text layer and reference-engine acceptance not). Lean theorems about Model.WasmBin, a hand model of "
-    "ppci/wasm/binary/{writer,reader}.py whose opcode/operand/value-type dictionaries are regenerated from the live ppci objects on every "
-    "run: for ALL modules in the modelled feature set (all 12 section kinds incl. custom and datacount; every instruction of opcodes.py "
-    "whose operand kinds both reader and writer implement, i.e. everything except ref.null / table.init / elem.drop / memory.init / "
-    "data.drop / v128.const; nested block/loop/if/br_table of any depth; f32/f64 constants as opaque 4/8-byte strings) that satisfy the "
-    "decidable predicate Valid (well-nested bodies, known types/opcodes with matching operands, UTF-8 names, element segments on table 0, "
-    "no signalling-NaN f32 constant, at most one start/datacount): read(write m) = m with the definitions in section order "
-    "(read_write), the written bytes are canonically encoded in the sense of the decidable predicate Canon (minimal C20 LEB128s everywhere, "
-    "section order, no empty sections, maximal local runs, ...; write_is_canonical), and write(read(write m)) = write m (write_read_write). "
-    "Section framing (id,size,payload) and every LEB immediate (u32/s32/s64, via the C20 theorems) are separate theorems; the table sanity "
-    "facts (opcodes unique, every mnemonic has one encoding that decodes to itself, types one byte) are decide +kernel over the regenerated "
-    "tables. Proved only partially (canonical_reread_partial): write(read bs) = bs is shown for every bs in the image of the writer, not yet "
-    "for every bs accepted by Canon. NOT covered by proof: the text format (Module.to_string / text parser) - evaluated on the real code only; "
-    "acceptance by a reference engine / agreement with a reference assembler - no wasmtime, wabt, wat2wasm or spec test-suite is available "
-    "in the sandbox, nothing is claimed for that clause."
+    "PARTIAL (binary layer proved in both directions, text layer and reference-engine acceptance not). Lean theorems about Model.WasmBin, a "
+    "hand model of ppci/wasm/binary/{writer,reader}.py whose opcode/operand/value-type dictionaries are regenerated from the live ppci objects "
+    "on every run. Feature set: all 13 section ids incl. custom and datacount; every instruction of opcodes.py whose operand kinds both reader "
+    "and writer implement (everything except ref.null / table.init / elem.drop / memory.init / data.drop / v128.const), generically over the "
+    "table; nested block/loop/if/br_table of any depth; f32/f64 constants as opaque 4/8-byte strings. (1) read_write: for ALL modules m "
+    "satisfying the decidable predicate Valid (well-nested bodies, known types/opcodes with matching operands, UTF-8 names, element segments on "
+    "table 0, no signalling-NaN f32 constant, at most one start/datacount): read(write m) = m with the definitions in section order. "
+    "(2) write_is_canonical: the written bytes satisfy the decidable predicate Canon = accepted by the strict reader (every LEB128 minimal in "
+    "the C20 sense, sections in order custom*,1..12 at most once, no empty vector section, function/code counts equal, mut 0/1, maximal local "
+    "runs, data flag 2 only with index>0, select with empty type list is 0x1B, no f32 sNaN, nothing the writer cannot emit). "
+    "(3) canonical_input_reproduced / canon_iff_written: for EVERY byte string bs with Canon bs, the (Python-mirroring) reader returns a Valid "
+    "module m and the writer's bytes for m are exactly bs; Canon is exactly the image of the writer - this is the first clause of C21 on the "
+    "model, in full. Section framing (id,size,payload), vectors, names, limits, types, import/export descriptors, instructions, expressions and "
+    "every LEB immediate (u32/s32/s64 via the C20 theorems) are separate theorems; the table facts (opcodes unique, every mnemonic has one "
+    "encoding that decodes to itself, types one byte) are decide +kernel over the regenerated tables. NOT covered by proof: the text format "
+    "(Module.to_string / text parser) - evaluated on the real code only; acceptance by a reference engine / agreement with a reference "
+    "assembler - no wasmtime, wabt, wat2wasm or spec test-suite is available in the sandbox, nothing is claimed for that clause."
 )
 LEVEL_NOTE = (
     "trusted: Lean kernel; axioms propext/Classical.choice/Quot.sound; the table dump (regen) and the hand model <-> source correspondence, "
